@@ -523,20 +523,23 @@ def removeEmpties (ll : Bool) (o : Nat) (cs : List RNode) : RNode := mkAlt o (re
 
 /-! ## `reduceAlternation` -/
 
+/-- `reduceAlternation` after `reduceSingleLetterAndNestedAlternations`: the two prefix extractions
+    (gated, left-to-right), then `removeRedundantEmptiesAndNothings` -/
+def reduceAltFrom (red : Bool → RNode → RNode) (ll on pa rtl : Bool) : RNode → RNode
+  | .alt o1 cs1 =>
+    match (if on && !rtl then factorText red pa o1 cs1 else .alt o1 cs1) with
+    | .alt o2 cs2 =>
+      match (if on && !rtl then factorSet red pa o2 cs2 else .alt o2 cs2) with
+      | .alt o3 cs3 => removeEmpties ll o3 cs3
+      | n3 => n3
+    | n2 => n2
+  | n1 => n1
+
 def reduceAlt (red : Bool → RNode → RNode) (ll on pa rtl : Bool) (o : Nat) (cs : List RNode) : RNode :=
   match cs with
   | [] => .nothing
   | [c] => c
-  | _ =>
-    match mkAlt o (mergeLetters ll cs) with
-    | .alt o1 cs1 =>
-      match (if on && !rtl then factorText red pa o1 cs1 else .alt o1 cs1) with
-      | .alt o2 cs2 =>
-        match (if on && !rtl then factorSet red pa o2 cs2 else .alt o2 cs2) with
-        | .alt o3 cs3 => removeEmpties ll o3 cs3
-        | n3 => n3
-      | n2 => n2
-    | n1 => n1
+  | _ => reduceAltFrom red ll on pa rtl (mkAlt o (mergeLetters ll cs))
 
 /-! ## `reduceAtomic` -/
 
@@ -747,7 +750,12 @@ mutual
     the new inner alternations are then not made atomic) — the tree does not tell, both are sound;
     `reduceLookaround` and `reduceExpressionConditional` then run the ending walk on the child -/
 def reduceAll (ll on dg : Bool) (fuel : Nat) (rtl pa : Bool) : RNode → RNode
-  | .alt o cs => reduceNode ll on rtl fuel pa (.alt o (reduceAlls ll on dg fuel rtl cs))
+  | .alt o cs =>
+    -- when no child changed the un-gated first pass has been done already (on the children as they were
+    -- before Nothing / a second Empty went away: repeating it on its own output could merge more)
+    let cs' := reduceAlls ll on dg fuel rtl cs
+    if changedAny cs cs' then reduceNode ll on rtl fuel pa (.alt o cs')
+    else reduceAltFrom (reduceNode ll on rtl fuel) ll on pa rtl (.alt o cs)
   | .cat o cs =>
     let cs' := reduceAlls ll on dg fuel rtl cs
     if changedAny cs cs' then reduceNode ll on rtl fuel pa (.cat o cs') else .cat o cs
